@@ -16,7 +16,9 @@ RULE = ("Hypothesis-generated programs for the 8 buffered classes: the main thre
         "two documents} (so flushes are forced in the middle of operations), then 2-3 threads each run "
         "1-2 buffered mutators (setitem, delitem, pop, update, setdefault, append, extend, insert, +=, "
         "remove, reset, clear) on 1-3 files through one or two objects per file (threads may share an "
-        "object or a file, or use distinct files); the main thread leaves the context after joining. "
+        "object or a file, or use distinct files); a thread may additionally own a PRIVATE object (used by "
+        "no other thread) on any of the files and issue single-step reads through it; the main thread "
+        "leaves the context after joining. "
         "Executed under the deterministic scheduler (all single-preemption schedules when <=1600, "
         "otherwise all distinct preemption sites; plus sampled 2-3 preemption schedules). Oracle: no "
         "operation outcome other than what some serial order of the operations gives on the plain "
@@ -25,7 +27,8 @@ RULE = ("Hypothesis-generated programs for the 8 buffered classes: the main thre
         "lock left held. Non-trivial = a thread preempted in the middle of an operation while another "
         "ran; distinct by (program, preemption site).")
 ASSUMPTIONS = list(c09.ASSUMPTIONS) + [
-    "reads are not issued here (shared-object reads are C14's)",
+    "reads are issued only through objects no other thread uses (shared-object reads are C14's), and "
+    "only single-step reads (getitem/get/len/dict membership)",
 ]
 
 
@@ -49,22 +52,46 @@ def draw_program(draw, ci):
             kinds.append(kind)
     T = draw(st.integers(2, 3))
     threads = []
+    shared = len(handles)
     for _ in range(T):
         tops = []
+        private = None
+        if draw(st.integers(0, 2)) == 0:
+            # a thread-private object (no other thread uses it) on one of the files: it may READ
+            private = len(handles)
+            handles.append({"file": draw(st.integers(0, F - 1))})
+            kinds.append(kind)
         for _ in range(draw(st.integers(1, 2))):
-            h = draw(st.integers(0, len(handles) - 1))
-            op = c09.dict_op(draw) if kind == "dict" else c09.list_op(draw, 3)
-            op["h"] = h
+            if private is not None and draw(st.booleans()):
+                # single-step reads only: with the shared-memory strategy all objects on a file share
+                # one container while buffered, and iterating reads can be torn (known finding K3)
+                if kind == "dict":
+                    op = draw(st.sampled_from([{"m": "getitem", "a": enc(["a"])}, {"m": "get", "a": enc(["b"])},
+                                               {"m": "len", "a": []}, {"m": "contains", "a": enc(["c"])}]))
+                else:
+                    op = draw(st.sampled_from([{"m": "getitem", "a": enc([0])}, {"m": "len", "a": []},
+                                               {"m": "getitem", "a": enc([-1])}]))
+                op = dict(op, h=private)
+            else:
+                h = draw(st.integers(0, shared - 1))
+                op = c09.dict_op(draw) if kind == "dict" else c09.list_op(draw, 3)
+                op["h"] = h
             tops.append(op)
         threads.append(tops)
     while sum(len(t) for t in threads) > 5:
         max(threads, key=len).pop()
+    # the main thread may already have modified files inside the context before the threads start
+    pre = []
+    for _ in range(draw(st.integers(0, 2))):
+        op = {"m": "setitem", "a": enc(["p", 1])} if kind == "dict" else {"m": "append", "a": enc(["p"])}
+        pre.append(dict(op, h=draw(st.integers(0, shared - 1))))
     if ci.buffered == "serialized":
         cap = draw(st.sampled_from([None, 0, 1, 20, 30, 45]))
     else:
         cap = draw(st.sampled_from([None, 0, 1, 2]))
     return {"property": ID, "class": ci.name, "docs": [enc(d) for d in docs], "root_kinds": [kind] * F,
-            "handles": handles, "kinds": kinds, "threads": threads, "buffered": {"cap": cap}}
+            "handles": handles, "kinds": kinds, "threads": threads, "buffered": {"cap": cap},
+            "pre_ops": pre}
 
 
 def judge(program, sc, res):
